@@ -297,7 +297,14 @@ def _rshape(rng, lo=1, hi=7):
 
 def _rdata(rng, shape):
     # field data in any memory layout (C / Fortran order, strided views)
-    return gen.layout(rng, rng.normal(size=shape) + 1j * rng.normal(size=shape), 0.2)
+    d = rng.normal(size=shape) + 1j * rng.normal(size=shape)
+    u = rng.random()
+    if u < 0.08:
+        d[:] = 0                    # a dark field (blocked segment): its extent is still its extent
+    elif u < 0.16:
+        d[0, :] = 0                 # dark border rows / columns inside the extent
+        d[:, -1] = 0
+    return gen.layout(rng, d, 0.2)
 
 
 def _bbox(cs):
